@@ -369,6 +369,11 @@ func (ctx *Context) evaluate() {
 	// ctx := &e.Context
 	var details []BufferSpan
 	numOpCountAdd := func(count IntType) bool {
+		if count < 0 || e.NumOpCount+count < e.NumOpCount {
+			// a huge count would wrap the counter and slip under the limit
+			ctx.Error = errors.New("允许算力上限")
+			return true
+		}
 		e.NumOpCount += count
 		if ctx.Config.OpCountLimit > 0 && e.NumOpCount > ctx.Config.OpCountLimit {
 			ctx.Error = errors.New("允许算力上限")
